@@ -209,12 +209,13 @@ def hardening_oracle(chk, rng, tier: str):  # noqa: C901, PLR0912, PLR0915
                 if not ok:
                     if isinstance(arg, sp.Add):
                         py_sum_defect.append({"argument": str(arg), "point": list(pt), "value": str(got), "expected": str(want)})
-                    else:
+                    # since /repo 1aeaf5e the sum arguments are judged like all others (round 7)
+                    if True:  # noqa: SIM102
                         fail("lambdified ComplexSqrt (python/math code) is not the root of the argument's value", argument=arg, point=list(pt), value=got, expected=want)
         except Exception as e:  # noqa: BLE001
             fail("ComplexSqrt cannot be printed as python code", argument=arg, error=repr(e)[:200])
     info["generated_code_evaluations"] = n_code
-    # reproduced on the pinned tree, outside the observation point of C11 (numpy lambdify): see notes/findings_C11.md
+    # was reproduced on the pinned tree before /repo 1aeaf5e (notes/findings_C11.md); 0 cases expected, each one is also a failing input
     info["pythoncode_sum_argument_precedence_defect"] = {"reproduced_cases": len(py_sum_defect), "first": py_sum_defect[:1]}
 
     # phase-space classes on compound arguments (s := m², sums): unfolded code at the compound value
